@@ -117,6 +117,12 @@ fn cmd_check(args: &[String]) -> i32 {
             Tier::Thorough => 3600.0,
         });
     let child_out = arg_val(args, "--child-out");
+    // The work itself runs in a child process ("--inner"): if lzma-rs takes the
+    // whole process down (stack overflow, abort), this process finds the run that
+    // does it and reports it as a violation with a replay file.
+    if !args.iter().any(|a| a == "--inner") && std::env::var("LZSIM_NO_SUPERVISE").is_err() {
+        return supervise_check(args, prop, &pid, tier, seed, &verif_dir, child_out.is_none());
+    }
     let opts = CheckOpts {
         tier,
         seed,
@@ -125,9 +131,12 @@ fn cmd_check(args: &[String]) -> i32 {
         verif_dir: verif_dir.clone(),
         runs_override: arg_val(args, "--runs").and_then(|s| s.parse().ok()),
         child: child_out.is_some(),
+        only_run: arg_val(args, "--only-run").and_then(|s| s.parse().ok()),
+        journal: arg_val(args, "--journal"),
+        dump: arg_val(args, "--dump-scenario"),
     };
     // oracle self-test first: a failure is a harness error, never a violation
-    let st_n = if child_out.is_some() {
+    let st_n = if child_out.is_some() || opts.only_run.is_some() {
         0
     } else if tier == Tier::Thorough {
         3000
@@ -311,6 +320,166 @@ fn cmd_check(args: &[String]) -> i32 {
 }
 
 
+fn own_exe() -> String {
+    std::env::current_exe()
+        .map(|e| e.to_string_lossy().replace(" (deleted)", ""))
+        .unwrap_or_else(|_| "lzsim".into())
+}
+
+fn death_note(st: &std::process::ExitStatus) -> String {
+    use std::os::unix::process::ExitStatusExt;
+    match (st.code(), st.signal()) {
+        (_, Some(sig)) => format!("killed by signal {}", sig),
+        (Some(c), None) => format!("exit code {}", c),
+        _ => "died".into(),
+    }
+}
+
+/// Parent side of a check: run the real check as a child; 0/1/2 are passed on. If
+/// the child dies any other way, re-run the runs that were in flight one by one
+/// (each in its own process, dumping every scenario before it executes) until
+/// one dies the same way, and report that one.
+fn supervise_check(
+    args: &[String],
+    prop: &'static dyn runner::Property,
+    pid: &str,
+    tier: Tier,
+    seed: u64,
+    verif_dir: &str,
+    top_level: bool,
+) -> i32 {
+    let t0 = std::time::Instant::now();
+    let exe = own_exe();
+    let tmp = format!("{}/replays/tmp", verif_dir);
+    let _ = std::fs::create_dir_all(&tmp);
+    let journal = format!("{}/{}-{}-journal.bin", tmp, pid, std::process::id());
+    let _ = std::fs::remove_file(&journal);
+    let st = std::process::Command::new(&exe)
+        .args(&args[1..])
+        .args(["--inner", "--journal", &journal])
+        .status();
+    let st = match st {
+        Ok(s) => s,
+        Err(e) => {
+            eprintln!("HARNESS-ERROR: cannot start {}: {}", exe, e);
+            return 2;
+        }
+    };
+    if let Some(c) = st.code() {
+        if c == 0 || c == 1 || c == 2 {
+            let _ = std::fs::remove_file(&journal);
+            return c;
+        }
+    }
+    let how = death_note(&st);
+    eprintln!("note: the check process died ({}); looking for the run that does it", how);
+    let mut cands: Vec<u64> = std::fs::read(&journal)
+        .unwrap_or_default()
+        .chunks(8)
+        .filter(|c| c.len() == 8)
+        .map(|c| u64::from_le_bytes([c[0], c[1], c[2], c[3], c[4], c[5], c[6], c[7]]))
+        .filter(|v| *v > 0)
+        .map(|v| v - 1)
+        .collect();
+    let _ = std::fs::remove_file(&journal);
+    cands.sort();
+    cands.dedup();
+    let evaluated_upto = cands.iter().max().copied().unwrap_or(0);
+    for i in cands {
+        let dump = format!("{}/{}-{}-dump.json", tmp, pid, i);
+        let _ = std::fs::remove_file(&dump);
+        let base = ["check", "--property", pid, "--tier", tier.name(), "--seed", &seed.to_string(), "--verif-dir", verif_dir, "--jobs", "1", "--inner", "--only-run", &i.to_string()];
+        let st2 = std::process::Command::new(&exe)
+            .args(base)
+            .args(["--dump-scenario", &dump])
+            .stdout(std::process::Stdio::null())
+            .stderr(std::process::Stdio::null())
+            .status();
+        let st2 = match st2 {
+            Ok(s) => s,
+            Err(_) => continue,
+        };
+        match st2.code() {
+            Some(0) | Some(2) => {
+                let _ = std::fs::remove_file(&dump);
+                continue;
+            }
+            Some(1) => {
+                // an ordinary violation after all: let that run report it itself
+                let _ = std::fs::remove_file(&dump);
+                let st3 = std::process::Command::new(&exe).args(base).status();
+                return st3.ok().and_then(|s| s.code()).unwrap_or(2);
+            }
+            _ => {}
+        }
+        let how2 = death_note(&st2);
+        let sc = std::fs::read_to_string(&dump).ok().and_then(|s| Json::parse(&s).ok()).unwrap_or(Json::Null);
+        let _ = std::fs::remove_file(&dump);
+        let _ = std::fs::create_dir_all(format!("{}/replays", verif_dir));
+        let path = format!("{}/replays/{}-{}-{}-{}.json", verif_dir, pid, runner::profile(), seed, i);
+        let detail = format!(
+            "the process executing this case died ({}): neither success nor an error value was returned",
+            how2
+        );
+        let j = Json::obj()
+            .with("format", Json::Int(1))
+            .with("property", Json::str(pid))
+            .with("profile", Json::str(runner::profile()))
+            .with(
+                "found_by",
+                Json::obj()
+                    .with("seed", Json::Int(seed as i128))
+                    .with("run", Json::Int(i as i128))
+                    .with("tier", Json::str(tier.name())),
+            )
+            .with("scenario", sc.clone())
+            .with(
+                "violation",
+                Json::obj()
+                    .with("class", Json::str("process_death"))
+                    .with("locus", Json::str(&how2))
+                    .with("detail", Json::str(&detail)),
+            );
+        if std::fs::write(&path, j.to_pretty()).is_err() {
+            eprintln!("HARNESS-ERROR: cannot write {}", path);
+            return 2;
+        }
+        println!("violation: class=process_death locus={} detail={}", how2, detail);
+        println!("VIOLATION property={} replay={}", pid, path);
+        if top_level {
+            let cov = Json::obj()
+                .with("evaluations", Json::Int(evaluated_upto as i128 + 1))
+                .with("distinct_nontrivial", Json::Int(1))
+                .with("rule", Json::str(prop.rule()))
+                .with("samples", Json::Arr(vec![sc]))
+                .with("exhaustive", Json::Bool(false))
+                .with(
+                    "note",
+                    Json::str("the checking process was killed by the code under test; counts are lower bounds taken from the run journal, the sample is the case that kills it"),
+                )
+                .with(
+                    "faults",
+                    Json::obj().with("configured", Json::obj()).with("fired", Json::obj()),
+                );
+            let ev = Json::obj()
+                .with("property_id", Json::str(pid))
+                .with("tier", Json::str(tier.name()))
+                .with("seed", Json::Int(seed as i128))
+                .with("level", Json::str(prop.level()))
+                .with("coverage", cov)
+                .with("wall_s", Json::Float(t0.elapsed().as_secs_f64()))
+                .with("violations", Json::Int(1))
+                .with("replay", Json::str(&path));
+            let _ = std::fs::create_dir_all(format!("{}/evidence", verif_dir));
+            let _ = std::fs::write(format!("{}/evidence/{}.json", verif_dir, pid), ev.to_pretty());
+            println!("{} {} seed={} wall={:.1}s exit=1 (process death)", pid, tier.name(), seed, t0.elapsed().as_secs_f64());
+        }
+        return 1;
+    }
+    eprintln!("HARNESS-ERROR: the check process died ({}) and no single run reproduces it", how);
+    2
+}
+
 /// Prove the simulator deterministic: every property, the same seeds, executed
 /// with 16, 5 and 1 workers (and twice with 16) must measure exactly the same
 /// thing (order-independent fingerprint over case ids, event-log hashes and
@@ -341,6 +510,9 @@ fn cmd_determinism(args: &[String]) -> i32 {
                     verif_dir: verif_dir.clone(),
                     runs_override: Some(r),
                     child: true,
+                    only_run: None,
+                    journal: None,
+                    dump: None,
                 };
                 let res = runner::check(prop, &opts);
                 let fp = res
